@@ -86,8 +86,9 @@ def _project(desc, idx):
 
 
 class Exits:
-    def __init__(self, prog, body, effects=False, sinks=None, cap_env=None):
+    def __init__(self, prog, body, effects=False, sinks=None, cap_env=None, closures=False):
         self.prog, self.body = prog, body
+        self.closures = closures
         self.cap_env = cap_env or {}
         self.effects = effects
         self.sinks = re.compile(sinks) if sinks else None
@@ -725,7 +726,7 @@ class Exits:
         """Effect entries (sink calls / writes through captured &mut) of the closures constructed in this body, so that the
         work done inside `for_each(|..| ..)` is part of the enclosing function's census."""
         out = []
-        if (self.sinks is None and not self.effects) or depth > 3:
+        if (self.sinks is None and not self.effects and not self.closures) or depth > 3:
             return out
         idx = getattr(self.prog, '_closure_by_span', None)
         if idx is None:
@@ -743,10 +744,10 @@ class Exits:
                     continue
                 from .census import inlined as _inl
                 sub = Exits(self.prog, _inl(self.prog, c), effects=self.effects, sinks=self.sinks.pattern if self.sinks else None,
-                            cap_env=self.capture_env(st.rhs))
+                            cap_env=self.capture_env(st.rhs), closures=self.closures)
                 outer = sorted(filter(None, {self.branch_atom(a, s) for (a, s) in self.closure_edges(bid)}))
                 for e in sub.census(depth + 1):
-                    if e.get('effect'):
+                    if e.get('effect') or self.closures:
                         e2 = dict(e)
                         e2['label'] = 'in closure: ' + e['label'] if not e['label'].startswith('in closure: ') else e['label']
                         e2['full'] = sorted(set(e['full']) | set(outer))
